@@ -14,7 +14,10 @@ Inductive pa_clause :=
 | PaClSorted          (* the delivered rows are not in ORDER BY order *)
 | PaClLimit           (* the number of delivered rows is not min(n, survivors) *)
 | PaClTopN            (* LIMIT cut a row that sorts strictly before a delivered row *)
-| PaClDistinct.       (* DISTINCT: two delivered rows are equal *)
+| PaClDistinct        (* DISTINCT: two delivered rows are equal *)
+| PaClDistinctLost.   (* DISTINCT: a surviving group is missing, LIMIT does not explain it, and a delivered
+                         row prints like its row without being equal to it (7 / "7", true / "true"):
+                         DISTINCT took a row of another type for a duplicate *)
 
 (* relational meaning of the HAVING condition for one group *)
 Fixpoint pa_hsem_exp (items : list pa_pexp) (e : pa_hexp) (g : pa_group) : option Q :=
@@ -76,6 +79,14 @@ Fixpoint pa_all_pairs {A : Type} (f : A -> A -> bool) (l : list A) : bool :=
   | x :: l' => forallb (f x) l' && pa_all_pairs f l'
   end.
 
+(* same columns, and every value prints (fmt %v) like the value of the other row *)
+Definition pa_prints_like (s r : pa_row) : bool :=
+  Nat.eqb (length s) (length r)
+  && forallb (fun cv => match pa_lookup (fst cv) r with
+                        | Some w => bytes_eqb (pa_order_string (snd cv)) (pa_order_string w)
+                        | None => false
+                        end) s.
+
 Definition pa_first_fail (l : list (bool * pa_clause)) : option pa_clause :=
   match filter (fun bc => negb (fst bc)) l with
   | [] => None
@@ -101,6 +112,8 @@ Definition pa_chk (q : pa_query) (has_limit : bool) (input : list (pa_key * pa_e
                         end) matched, PaClItemValue);
     (forallb (pa_survives q) out_groups, PaClHaving);
     (pa_all_pairs (fun a b => negb (pa_less (pq_order q) b a)) out, PaClSorted);
+    (negb (pq_distinct q) || (has_limit && negb (Nat.ltb (length out) (pq_limit q)))
+       || forallb (fun g => negb (existsb (pa_prints_like (pa_spec_row q g)) out)) missing, PaClDistinctLost);
     (Nat.eqb (length out) want_len, PaClLimit);
     (match missing with [] => true | _ => has_limit end, PaClHavingLost);
     (forallb (fun g => forallb (fun r => negb (pa_less (pq_order q) (pa_spec_row q g) r)) out) missing, PaClTopN);
